@@ -189,10 +189,6 @@ def _is_arr(x):
 def mechanism(idx, shape, flat):
     """Name the mechanism a discrepancy belongs to (used as known-finding key), or None."""
     at = _atoms(idx)
-    for x in at:
-        if isinstance(x, slice) and x.step is not None and x.step < 0 and x.start is None \
-                and x.stop is not None and x.stop >= 0:
-            return 'slice-open-start-neg-step-nonneg-stop'
     if not flat and len(shape) > 1 and not isinstance(idx, tuple) and \
             (isinstance(idx, (int, np.integer)) or (_is_arr(idx) and np.asarray(idx).ndim == 1)):
         return 'nd-nonflat-single-int-or-1d-array-first-axis-only'
@@ -200,11 +196,19 @@ def mechanism(idx, shape, flat):
         k = [i for i, x in enumerate(at) if x is Ellipsis][0]
         rank = 1 if flat else len(shape)
         width = rank - (len(at) - 1)
-        if width == 0 and any(_is_arr(x) for x in at[:k]) and any(_is_arr(x) for x in at[k + 1:]):
+        # ints count as advanced indices for NumPy once an array index is present
+        def adv(x):
+            return _is_arr(x) or isinstance(x, (int, np.integer))
+        if width == 0 and any(_is_arr(x) for x in at) and any(adv(x) for x in at[:k]) and \
+                any(adv(x) for x in at[k + 1:]):
             return 'zero-width-ellipsis-between-array-indices'
         rest = [x for x in at if x is not Ellipsis]
         if len(rest) == 1 and _is_arr(rest[0]) and np.asarray(rest[0]).ndim > 1 and rank == 1:
             return 'ellipsis-tuple-collapsing-to-single-nd-array'
+    for x in at:
+        if isinstance(x, slice) and x.step is not None and x.step < 0 and x.start is None \
+                and x.stop is not None and x.stop >= 0:
+            return 'slice-open-start-neg-step-nonneg-stop'
     return None
 
 
